@@ -99,6 +99,23 @@ Theorem c05_transform_factors : forall a b y, ~ b - a == 0 ->
   (fourier_canon a b y == canon (fourier_jac a b) (a / (b - a)) y /\ fourier_canon a b a == 0 /\ fourier_canon a b b == 1).
 Proof. intros a b y N. split; [exact (linear_transform_facts a b N) | exact (fourier_transform_facts a b y N)]. Qed.
 
+(* from the Taylor identity to the epsilon-delta derivative over Q: when the remainder is bounded for |h| <= 1 (every
+   polynomial remainder is), f' is THE derivative of f at x *)
+Theorem c05_taylor_is_derivative : forall (f : Q -> Q) (x f' : Q) (rem : Q -> Q),
+  bdd rem -> (forall h, f (x + h) == f x + h * f' + h * h * rem h) ->
+  forall eps, 0 < eps -> exists delta, 0 < delta /\
+    forall h, Qabs h < delta -> Qabs (f (x + h) - f x - h * f') <= eps * Qabs h.
+Proof. exact taylor_is_derivative. Qed.
+
+(* instance: every basis piece of order <> 1 (quadratic, cubic, generic product), all rules, all points: diff_scaled is the
+   epsilon-delta derivative of eval_scaled at EVERY point of the scaled coordinate *)
+Theorem c05_scaled_is_derivative : forall r o p xn, o <> 1%Z ->
+  ((o <> 1 /\ o <> 2 /\ o <> 3)%Z -> uses_cubic r p = true \/ (1 <= max_ancestors r o p)%Z) ->
+  forall eps, 0 < eps -> exists delta, 0 < delta /\
+    forall k, Qabs k < delta ->
+      Qabs (eval_scaled r o p (xn + k) - eval_scaled r o p xn - k * diff_scaled r o p xn 1) <= eps * Qabs k.
+Proof. exact scaled_is_derivative. Qed.
+
 (* non-vacuity: point 21 of localp with unbounded order has 3 phantom ancestors; the hypotheses of c05_local_1d hold at
    x = -27/64, h = 1/128; the derivative there is not 0 *)
 Example c05_example_nodes : power_nodes Localp (-1) 21 = [3; 7; -9] /\ uses_cubic Localp 21 = false.
@@ -128,3 +145,5 @@ Print Assumptions c05_product_rule_entries.
 Print Assumptions c05_hier_linear.
 Print Assumptions c05_transform_chain.
 Print Assumptions c05_transform_factors.
+Print Assumptions c05_taylor_is_derivative.
+Print Assumptions c05_scaled_is_derivative.
